@@ -24,6 +24,9 @@ class C04(FCheck):
         bs = r.choice([4096, 65536, 1 << 20])
         ops = gen.small_tree(r, "src", nfiles=r.randrange(1, 5), links=True, specials=r.random() < 0.4,
                              sizes=lambda rr: gen.boundary_size(rr, bs, cap=150_000), bs=bs)
+        if bs >= 4096 and r.random() < 0.35:
+            ln, runs = gen.sparse_layout(r, style=r.choice(["trail", "lead", "inter", "empty"]), max_runs=3)
+            ops.append(gen.f_op("src/sparse", ln, runs=runs))
         flags = {"r": True}
         for k, p in (("fsync", 0.4), ("no_perms", 0.2), ("no_timestamps", 0.2), ("ownership", 0.2)):
             if r.random() < p:
@@ -48,7 +51,8 @@ class C04(FCheck):
             ops.append(gen.f_op("src/.gitignore", 6, runs=[]))
             flags["gitignore"] = True
         inv = gen.mk_inv(["src"], "dst", driver=driver, workers=r.choice([1, 2, 4]), block_size=bs, **flags)
-        return {"setup": ops, "steps": [{"inv": inv, "ignore": {"src": []} if flags.get("gitignore") else None}]}
+        kernel = {"fiemap": "emulate"} if r.random() < 0.5 else {}
+        return {"setup": ops, "steps": [{"inv": inv, "ignore": {"src": []} if flags.get("gitignore") else None}], "kernel": kernel}
 
     def evaluate_fault(self, res, verdict, case, t0, plan, base):
         f = super().evaluate_fault(res, verdict, case, t0, plan, base)
